@@ -346,6 +346,10 @@ func paths(c *mon.Ctx, cs gen.Case, id string) {
 				want = out.Len()
 				ok = check("P6-ConvertToRaw+EncodeRaw+DecodeFrame", f, out.Len()-rd.Len(), err) && ok
 				want = len(b)
+				if out.Len() > 1 && out.Bytes()[1] != b[1] {
+					viol("P6-ConvertToRaw+EncodeRaw", fmt.Sprintf("header-flags-%#02x-differ-from-EncodeFrame-%#02x", out.Bytes()[1], b[1]))
+					ok = false
+				}
 			}
 		}
 		// P7: EncodeHeader + EncodeBody -> DecodeFrame
@@ -366,6 +370,35 @@ func paths(c *mon.Ctx, cs gen.Case, id string) {
 				f, err := codec.DecodeFrame(rd)
 				want = out.Len()
 				ok = check("P7-EncodeHeader+EncodeBody+DecodeFrame", f, out.Len()-rd.Len(), err) && ok
+				want = len(b)
+				if out.Len() > 1 && out.Bytes()[1] != b[1] {
+					viol("P7-EncodeHeader+EncodeBody", fmt.Sprintf("header-flags-%#02x-differ-from-EncodeFrame-%#02x", out.Bytes()[1], b[1]))
+					ok = false
+				}
+			}
+		}
+		// P7b: the header goes out first (the length is known from an earlier encode), then the body, both
+		// straight to the destination — the order in which they travel
+		f7b := bridge.ToLib(a, flag, bridge.NewVariant(mon.NewRand(c.Seed, hash(id)^uint64(ci)^7)))
+		var probe bytes.Buffer
+		// (only where the body bytes are a function of the frame: a compressed body that holds a Go map is
+		// written in map iteration order and compresses to a different length from one encode to the next)
+		deterministic := !flag || ((a.Msg.Opcode() == ref.OpOptions || a.Msg.Opcode() == ref.OpReady) && (a.Payload == nil || len(*a.Payload) <= 1))
+		if err := codec.EncodeBody(f7b.Header, f7b.Body, &probe); err == nil && deterministic {
+			f7b = bridge.ToLib(a, flag, bridge.NewVariant(mon.NewRand(c.Seed, hash(id)^uint64(ci)^7)))
+			f7b.Header.BodyLength = int32(probe.Len())
+			var out bytes.Buffer
+			if err := codec.EncodeHeader(f7b.Header, &out); err != nil {
+				viol("P7b-EncodeHeader", "error:"+short(err))
+				ok = false
+			} else if err := codec.EncodeBody(f7b.Header, f7b.Body, &out); err != nil {
+				viol("P7b-EncodeBody-after-EncodeHeader", "error:"+short(err))
+				ok = false
+			} else {
+				rd := bytes.NewReader(out.Bytes())
+				f, err := codec.DecodeFrame(rd)
+				want = out.Len()
+				ok = check("P7b-EncodeHeader-then-EncodeBody+DecodeFrame", f, out.Len()-rd.Len(), err) && ok
 				want = len(b)
 			}
 		}
